@@ -312,7 +312,12 @@ func runBlock(c BlockCase) (res common.Result) {
 		<-tokens
 		deliveredCh <- r
 	}, coll)
-	defer v.Close()
+	leakOnPurpose := false // a StoreLogs stuck inside the verifier must not meet a closed channel
+	defer func() {
+		if !leakOnPurpose {
+			v.Close()
+		}
+	}()
 	var triggered []verifier.LogRange
 	next := uint64(1)
 	cpCount := 0
@@ -368,8 +373,8 @@ func runBlock(c BlockCase) (res common.Result) {
 				}
 			case <-time.After(20 * time.Second):
 				st := stacks()
-				close(tokens)
 				if strings.Contains(st, "verifier.(*LogStore).StoreLogs") || strings.Contains(st, "verifier.(*LogStore).triggerVerify") {
+					leakOnPurpose = true
 					res.Fail = common.Failf("storelogs-blocked", "step %d: StoreLogs did not return while the report callback was blocked (%d checkpoints so far); a goroutine is parked inside verifier.StoreLogs:\n%s", i, cpCount, firstGoroutineWith(st, "verifier.(*LogStore)"))
 					return
 				}
